@@ -18,6 +18,7 @@ import (
 	"sort"
 	"testing"
 	"time"
+	"verifharness/internal/ev"
 
 	storetypes "github.com/cosmos/cosmos-sdk/store/types"
 	sdk "github.com/cosmos/cosmos-sdk/types"
@@ -145,6 +146,7 @@ func (c *Chain) advanceBlockRecovered(delta time.Duration) (ok bool) {
 	defer func() {
 		if r := recover(); r != nil {
 			c.Halt = fmt.Sprintf("panic in End/BeginBlock leaving height %d: %v\n%s", c.Height(), r, debug.Stack())
+			ev.AddExtraAll("chain_halts_seen(a halt is C37's subject; other checks end the case there)", 1)
 			ok = false
 		}
 	}()
